@@ -37,6 +37,30 @@ var importMap = map[string][2]string{
 	"math/rand":   {"verif/vshim/vrand", "rand"},
 }
 
+// racyFields are struct fields that nbio reads or writes without holding the lock that guards
+// them elsewhere (or without any lock). Accesses to them are made visible to the scheduler: a
+// scheduling point plus a happens-before step (vsched.Touch), inserted in front of the
+// statement that contains the access. Without this, two interleavings that differ only in the
+// order of such accesses would have the same happens-before graph and the second would be
+// pruned as "already visited" (and with too few scheduling points the order could not even be
+// produced). Key: "<package path>.<struct>.<field>". Conn.closed is deliberately not listed: it is
+// written under the connection mutex only, its unlocked reads are pre-checks that are repeated
+// under the mutex, and listing it doubles the cost of every engine-level scenario.
+var racyFields = map[string]bool{
+	"github.com/lesismal/nbio.Engine.isOneshot":                    true,
+	"github.com/lesismal/nbio.Engine.connsUnix":                    true,
+	"github.com/lesismal/nbio.Engine.ioTaskPool":                   true,
+	"github.com/lesismal/nbio.Config.IOExecute":                    true,
+	"github.com/lesismal/nbio.Config.MaxConnReadTimesPerEventLoop": true,
+	"github.com/lesismal/nbio.poller.shutdown":                     true,
+	"github.com/lesismal/nbio.Conn.onConnected":                    true,
+	"github.com/lesismal/nbio/nbhttp.Engine.shutdown":              true,
+	"github.com/lesismal/nbio/nbhttp.Engine.conns":                 true,
+	"github.com/lesismal/nbio/nbhttp.Engine.dialerConns":           true,
+	"github.com/lesismal/nbio/nbhttp/websocket.Conn.closed":        true,
+	"github.com/lesismal/nbio/lmux.ListenerMux.shutdown":           true,
+}
+
 var pkgDirs = []string{".", "taskpool", "timer", "mempool", "lmux", "nbhttp", "nbhttp/websocket", "logging"}
 
 type rewriter struct {
@@ -184,7 +208,214 @@ func (r *rewriter) errf(n ast.Node, format string, a ...interface{}) {
 	r.errs = append(r.errs, fmt.Sprintf("%s:%d: ", filepath.Base(pos.Filename), pos.Line)+fmt.Sprintf(format, a...))
 }
 
+// touchesOf lists the racy fields accessed by the expressions of a statement itself (not by
+// nested blocks or function literals), with whether the access is a write.
+func (r *rewriter) touchesOf(n ast.Node, writes map[ast.Expr]bool) (names []string, write []bool) {
+	seen := map[string]int{}
+	ast.Inspect(n, func(x ast.Node) bool {
+		switch v := x.(type) {
+		case *ast.FuncLit, *ast.BlockStmt:
+			return x == n
+		case *ast.SelectorExpr:
+			sel := r.pkg.TypesInfo.Selections[v]
+			if sel == nil || sel.Kind() != types.FieldVal {
+				return true
+			}
+			f, ok := sel.Obj().(*types.Var)
+			if !ok || f.Pkg() == nil {
+				return true
+			}
+			// the struct that declares the field
+			recv := sel.Recv()
+			for {
+				if p, ok := recv.(*types.Pointer); ok {
+					recv = p.Elem()
+					continue
+				}
+				break
+			}
+			owner := ""
+			// walk embedded path to find the declaring named struct
+			var find func(t types.Type, idx []int) string
+			find = func(t types.Type, idx []int) string {
+				for {
+					if p, ok := t.(*types.Pointer); ok {
+						t = p.Elem()
+						continue
+					}
+					break
+				}
+				nt, _ := t.(*types.Named)
+				st, ok := t.Underlying().(*types.Struct)
+				if !ok {
+					return ""
+				}
+				fld := st.Field(idx[0])
+				if len(idx) == 1 {
+					if nt != nil {
+						return nt.Obj().Name()
+					}
+					return ""
+				}
+				return find(fld.Type(), idx[1:])
+			}
+			owner = find(recv, sel.Index())
+			key := f.Pkg().Path() + "." + owner + "." + f.Name()
+			if racyFields[key] {
+				if i, dup := seen[key]; dup {
+					write[i] = write[i] || writes[v]
+				} else {
+					seen[key] = len(names)
+					names = append(names, owner+"."+f.Name())
+					write = append(write, writes[v])
+				}
+			}
+		}
+		return true
+	})
+	return
+}
+
+func (r *rewriter) touchStmts(names []string, write []bool) []ast.Stmt {
+	var out []ast.Stmt
+	for i, n := range names {
+		w := "false"
+		if write[i] {
+			w = "true"
+		}
+		r.needVS = true
+		out = append(out, &ast.ExprStmt{X: call("vsched.Touch", &ast.BasicLit{Kind: token.STRING, Value: `"` + n + `"`}, ast.NewIdent(w))})
+	}
+	return out
+}
+
+// insertTouches puts vsched.Touch calls in front of every statement that accesses a racy field.
+func (r *rewriter) insertTouches() {
+	var doList func(list []ast.Stmt) []ast.Stmt
+	header := func(s ast.Stmt) (nodes []ast.Node, writes map[ast.Expr]bool) {
+		writes = map[ast.Expr]bool{}
+		markW := func(e ast.Expr) {
+			for {
+				switch v := e.(type) {
+				case *ast.IndexExpr:
+					e = v.X
+					continue
+				case *ast.ParenExpr:
+					e = v.X
+					continue
+				case *ast.StarExpr:
+					e = v.X
+					continue
+				}
+				break
+			}
+			writes[e] = true
+		}
+		switch v := s.(type) {
+		case *ast.AssignStmt:
+			for _, l := range v.Lhs {
+				markW(l)
+			}
+			nodes = append(nodes, v)
+		case *ast.IncDecStmt:
+			markW(v.X)
+			nodes = append(nodes, v)
+		case *ast.IfStmt:
+			if v.Init != nil {
+				nodes = append(nodes, v.Init)
+			}
+			nodes = append(nodes, v.Cond)
+		case *ast.ForStmt:
+			if v.Init != nil {
+				nodes = append(nodes, v.Init)
+			}
+			if v.Cond != nil {
+				nodes = append(nodes, v.Cond)
+			}
+		case *ast.RangeStmt:
+			nodes = append(nodes, v.X)
+		case *ast.SwitchStmt:
+			if v.Init != nil {
+				nodes = append(nodes, v.Init)
+			}
+			if v.Tag != nil {
+				nodes = append(nodes, v.Tag)
+			}
+		case *ast.TypeSwitchStmt:
+			nodes = append(nodes, v.Assign)
+		case *ast.ExprStmt, *ast.ReturnStmt, *ast.DeferStmt, *ast.GoStmt, *ast.SendStmt, *ast.DeclStmt:
+			nodes = append(nodes, v)
+		}
+		return
+	}
+	var visit func(n ast.Node)
+	doList = func(list []ast.Stmt) []ast.Stmt {
+		var out []ast.Stmt
+		for _, s := range list {
+			if ls, ok := s.(*ast.LabeledStmt); ok {
+				visit(ls.Stmt)
+				out = append(out, s)
+				continue
+			}
+			nodes, writes := header(s)
+			var names []string
+			var wr []bool
+			for _, n := range nodes {
+				nn, ww := r.touchesOf(n, writes)
+				for i := range nn {
+					dup := false
+					for j := range names {
+						if names[j] == nn[i] {
+							wr[j] = wr[j] || ww[i]
+							dup = true
+						}
+					}
+					if !dup {
+						names = append(names, nn[i])
+						wr = append(wr, ww[i])
+					}
+				}
+			}
+			out = append(out, r.touchStmts(names, wr)...)
+			// a loop condition is re-evaluated after every iteration
+			if fs, ok := s.(*ast.ForStmt); ok && fs.Cond != nil {
+				nn, ww := r.touchesOf(fs.Cond, map[ast.Expr]bool{})
+				if len(nn) > 0 {
+					fs.Body.List = append(fs.Body.List, r.touchStmts(nn, ww)...)
+				}
+			}
+			visit(s)
+			out = append(out, s)
+		}
+		return out
+	}
+	visit = func(n ast.Node) {
+		ast.Inspect(n, func(x ast.Node) bool {
+			switch v := x.(type) {
+			case *ast.BlockStmt:
+				if v != nil {
+					v.List = doList(v.List)
+				}
+				return false
+			case *ast.CaseClause:
+				v.Body = doList(v.Body)
+				return false
+			case *ast.CommClause:
+				v.Body = doList(v.Body)
+				return false
+			}
+			return true
+		})
+	}
+	for _, d := range r.file.Decls {
+		if fd, ok := d.(*ast.FuncDecl); ok && fd.Body != nil {
+			fd.Body.List = doList(fd.Body.List)
+		}
+	}
+}
+
 func (r *rewriter) rewrite() {
+	r.insertTouches()
 	// imports
 	for _, is := range r.file.Imports {
 		path := strings.Trim(is.Path.Value, `"`)
